@@ -1,49 +1,221 @@
 /-
-  FspecAllRepl6 — C05 for `replace`, pair reading: the theorems, for EVERY forest with `Forest.Inv`
+  FspecAllRepl6 — C05 for `replace`, pair reading: the theorem, for EVERY forest with `Forest.Inv`
   (adjacent text nodes allowed).
 
-  * `replace_pairK`: a successful `replace(a, b)` is `Spec.specReplaceK a b f`, handle for handle.
-  * `specReplaceK_eq_specReplaceP`: outside the corner `Spec.selfMergeReplace` that is the reading
-    the property demands, `Spec.specReplaceP a b f`.
-  * `replace_pair_partial`: hence `replace(a, b) = specReplaceP a b f` outside the corner.
+  * `PutSite.final_next`, `PutSite.final_last`: the last step of `replace` on the forest
+    `(replMid …).mergeNewAt q new` gives `(replMid …).mergeNew3At q new`;
+  * `replace_pair`: a successful `replace(a, b)` is `Spec.specReplaceP a b f`, handle for handle —
+    the reading the property demands, on every forest, every geometry (xot 609b613: the last
+    consolidation looks from the node that followed the replaced node, so it also finds the text node
+    that took in the replacing text when the former left neighbour has been merged away).
+  * `PutSite.pairK_eq_pairP`, `replace_last_eq_old`: the consolidation of the two FORMER neighbours
+    of the replaced node (what xot did before 609b613, and what the lemmas about `Forest.Normal`
+    forests in `FspecReplGap*.lean` are stated with) gives the same forest outside the corner
+    `x new p old z` (all text) — in particular on every forest without adjacent text nodes.
 -/
 import XotModel.Lemmas.FspecAllRepl5
 
 namespace XotModel
 open HTree Spec PairAll
 
-/-- **replace**, pair reading as xot does it: every forest with the invariant, every geometry. -/
-theorem replace_pairK {f : Forest} {a b : Nat} (inv : f.Inv) (hok : (f.replace a b).2 = .ok) :
-    (f.replace a b).1 = specReplaceK a b f := by
+/-- A normal child of an ordered child list without a next sibling is the last child. -/
+theorem nextOf_none_nil {l : List HTree} {A : HTree} {r : List HTree} (hord : kidsOrdered (l ++ A :: r) = true)
+    (hAn : A.value.isNormal = true) (h : nextOf r A = none) : r = [] := by
+  cases r with
+  | nil => rfl
+  | cons R r2 =>
+    exfalso
+    have hA2 : A.value.category.rank = 2 := rank_normal.2 (isNormal_iff.1 hAn)
+    have := kidsOrdered_rank_le _ (kidsOrdered_drop l hord) R List.mem_cons_self
+    rw [hA2] at this
+    have hR : R.value.category = .normal := rank_normal.1 (Nat.le_antisymm (rank_le_two _) this)
+    simp [nextOf, hR, isNormal_iff.1 hAn] at h
+
+namespace PutSite
+variable {f : Forest} {a b q : Nat} {vq : Value} {l r : List HTree} {t : HTree} {lX rX : List HTree}
+
+/-- **xot's last step (since 609b613) when the replaced node had a next sibling** `N`: the node `N`
+    is consolidated with whatever stands before it now — the text node that took in the replacing
+    text, also when that is not the former left neighbour of the replaced node (which may have been
+    merged away when the replacing node left).  Together with `mergeNew` that is `mergeNew3`. -/
+theorem final_next (ps : PutSite f a b q vq l r t lX rX) (ht : t.handle = b) (hlX : lX ≠ [])
+    {N : HTree} {r0 : List HTree} (er : r = N :: r0) :
+    (((replMid f a b q t).mergeNewAt q b).removeConsolidate
+        (((replMid f a b q t).mergeNewAt q b).prevSibling N.handle) (some N.handle)).1 =
+      (replMid f a b q t).mergeNew3At q b := by
+  subst ht
+  cases hc : f.consolidation with
+  | false =>
+    have cX : (replMid f a t.handle q t).consolidation = false := by rw [replMid_consolidation]; exact hc
+    have c2 := cons2 f a t.handle q t
+    rw [hc] at c2
+    rw [Forest.removeConsolidate_off c2, Forest.mergeNewAt_off cX]
+    unfold Forest.mergeNew3At
+    rw [cX]
+    rfl
+  | true =>
+    have cX : (replMid f a t.handle q t).consolidation = true := by rw [replMid_consolidation]; exact hc
+    have c2 := cons2 f a t.handle q t
+    rw [hc] at c2
+    have s2 := ps.site2 hc
+    obtain ⟨tl, tr⟩ := ps.tops rfl
+    obtain ⟨l1, x', elX⟩ : ∃ l1 x', lX = l1 ++ [x'] := by
+      rcases List.eq_nil_or_concat lX with e | ⟨l1, x', e⟩
+      · exact absurd e hlX
+      · exact ⟨l1, x', by rw [e, List.concat_eq_append]⟩
+    rcases ps.right with ⟨e1, _⟩ | ⟨N0, r0', N', r1, e1, erX, hN, hNt⟩
+    · rw [er] at e1; cases e1
+    · have eN : N0 = N := by
+        rw [er] at e1
+        injection e1 with h _
+        exact h.symm
+      subst eN
+      subst elX erX
+      have hl1 : ∀ k ∈ l1, k.handle ≠ t.handle := fun k hk => tl k (by simp [hk])
+      have hx't : x'.handle ≠ t.handle := tl x' (by simp)
+      have eM : (l1 ++ [x']) ++ t :: N' :: r1 = l1 ++ x' :: t :: N' :: r1 := by simp
+      have hleafN : ∀ k ∈ N' :: r1, k.value.isText = true → k.kids = [] := ps.leafR
+      unfold Forest.mergeNew3At
+      rw [cX, if_pos rfl, ← hN]
+      by_cases hb : x'.value.isText = true ∧ t.value.isText = true
+      · -- the replacing text has been merged into the text node before it
+        obtain ⟨s, hs⟩ := text_of_isText hb.1
+        obtain ⟨v, hv⟩ := text_of_isText hb.2
+        rw [eM, mergeNew_mid_left hs hv l1 (N' :: r1) hl1 hx't] at s2
+        have s2' : SiteAt ((replMid f a t.handle q t).mergeNewAt q t.handle) q vq
+            ((l1 ++ [x'.setValue (.text (s ++ v))]) ++ N' :: r1) := by
+          have : (l1 ++ [x'.setValue (.text (s ++ v))]) ++ N' :: r1 = l1 ++ x'.setValue (.text (s ++ v)) :: N' :: r1 := by
+            simp
+          rw [this]; exact s2
+        by_cases hNt' : N'.value.isText = true
+        · obtain ⟨w, hw⟩ := text_of_isText hNt'
+          rw [prevStep_merge s2' c2 (setValue_value _ _) hw hleafN, Forest.mergeNewAt_on cX, Forest.editAt_editAt]
+          apply ps.site.congr
+          simp only [Function.comp]
+          rw [eM, mergeNew3_mid (N' :: r1) l1 hl1 hx't, joinLeft_text hs hv]
+          simp only [Option.map_some, Option.getD_some]
+          rw [absorbNext_cons, joinLeft_text (setValue_value _ _) hw]
+          rfl
+        · rw [prevStep_noop s2' (fun h => hNt' h.2), Forest.mergeNewAt_on cX]
+          apply ps.site.congr
+          rw [eM, mergeNew_mid (N' :: r1) l1 hl1 hx't, mergeNew3_mid (N' :: r1) l1 hl1 hx't, joinLeft_text hs hv]
+          simp only [Option.map_some, Option.getD_some]
+          rw [absorbNext_cons, joinLeft_none (fun h => hNt' h.2)]
+          rfl
+      · -- the replacing node stands behind its left neighbour, unmerged: nothing left to do
+        have hspec : (replMid f a t.handle q t).editAt (some q) (mergeNew3 t.handle) =
+            (replMid f a t.handle q t).mergeNewAt q t.handle := by
+          rw [Forest.mergeNewAt_on cX]
+          apply ps.site.congr
+          rw [eM, mergeNew_mid (N' :: r1) l1 hl1 hx't, mergeNew3_mid (N' :: r1) l1 hl1 hx't, joinLeft_none hb]
+          rfl
+        rw [hspec]
+        rw [eM, mergeNew_mid_right hb l1 (N' :: r1) hl1 hx't] at s2
+        by_cases hb2 : t.value.isText = true ∧ N'.value.isText = true
+        · obtain ⟨u, hu⟩ := text_of_isText hb2.1
+          obtain ⟨w, hw⟩ := text_of_isText hb2.2
+          rw [mergeNewHead_text hu hw] at s2
+          have s2' : SiteAt ((replMid f a t.handle q t).mergeNewAt q t.handle) q vq
+              ((l1 ++ [x']) ++ N'.setValue (.text (u ++ w)) :: r1) := by
+            have : (l1 ++ [x']) ++ N'.setValue (.text (u ++ w)) :: r1 = l1 ++ x' :: N'.setValue (.text (u ++ w)) :: r1 := by
+              simp
+            rw [this]; exact s2
+          have := prevStep_noop s2' (fun h => hb ⟨h.1, hb2.1⟩)
+          rw [setValue_handle] at this
+          exact this
+        · rw [mergeNewHead_other hb2] at s2
+          have s2' : SiteAt ((replMid f a t.handle q t).mergeNewAt q t.handle) q vq
+              (((l1 ++ [x']) ++ [t]) ++ N' :: r1) := by
+            have : ((l1 ++ [x']) ++ [t]) ++ N' :: r1 = l1 ++ x' :: t :: N' :: r1 := by simp
+            rw [this]; exact s2
+          exact prevStep_noop s2' hb2
+
+/-- The replaced node was the last child: after `mergeNew` nothing is left to do (`mergeNew3`). -/
+theorem final_last (ps : PutSite f a b q vq l r t lX rX) (ht : t.handle = b) (er : r = []) :
+    (replMid f a b q t).mergeNewAt q b = (replMid f a b q t).mergeNew3At q b := by
+  subst ht
+  unfold Forest.mergeNew3At Forest.mergeNewAt
+  split
+  · obtain ⟨tl, tr⟩ := ps.tops rfl
+    rcases ps.right with ⟨_, erX⟩ | ⟨N0, r0', N', r1, e1, _, _, _⟩
+    · subst erX
+      apply ps.site.congr
+      rcases List.eq_nil_or_concat lX with e | ⟨l1, x', e⟩
+      · subst e
+        simp only [List.nil_append]
+        rw [mergeNew_head [] (fun _ h => by cases h), mergeNew3_head [] (fun _ h => by cases h)]
+      · rw [List.concat_eq_append] at e
+        subst e
+        have hl1 : ∀ k ∈ l1, k.handle ≠ t.handle := fun k hk => tl k (by simp [hk])
+        have hx't : x'.handle ≠ t.handle := tl x' (by simp)
+        have eM : (l1 ++ [x']) ++ [t] = l1 ++ x' :: t :: [] := by simp
+        rw [eM, mergeNew_mid [] l1 hl1 hx't, mergeNew3_mid [] l1 hl1 hx't]
+        cases joinLeft x' t <;> rfl
+    · rw [er] at e1; cases e1
+  · rfl
+
+/-- The pair merge of the two former neighbours of the replaced node after `mergeNew` is `mergeNew3`
+    — outside the corner (`mergeK_eq_mergeP`), as forests. -/
+theorem pairK_eq_pairP (ps : PutSite f a b q vq l r t lX rX) (ht : t.handle = b)
+    (hcorner : ∀ u x P N r0, l = u ++ x :: t :: [P] → r = N :: r0 → f.consolidation = true →
+      x.value.isText = true → P.value.isText = true → ¬ (t.value.isText = true ∧ N.value.isText = true)) :
+    ((replMid f a b q t).mergeNewAt q b).mergeLeftAt (some q)
+      (l.getLast?.map (·.handle), r.head?.map (·.handle)) = (replMid f a b q t).mergeNew3At q b := by
+  cases hc : f.consolidation with
+  | false =>
+    have cX : (replMid f a b q t).consolidation = false := by rw [replMid_consolidation]; exact hc
+    rw [Forest.mergeNewAt_off cX, Forest.mergeLeftAt_off cX]
+    unfold Forest.mergeNew3At
+    rw [cX]
+    rfl
+  | true =>
+    have cX : (replMid f a b q t).consolidation = true := by rw [replMid_consolidation]; exact hc
+    have c2 : ((replMid f a b q t).mergeNewAt q b).consolidation = true := by
+      rw [PutSite.cons2]; exact hc
+    rw [mergeLeftAt_eq_adjOpt c2, Forest.mergeNewAt_on cX, Forest.editAt_editAt]
+    unfold Forest.mergeNew3At
+    rw [cX, if_pos rfl]
+    apply ps.site.congr
+    simp only [Function.comp]
+    exact ps.mergeK_eq_mergeP ht hcorner
+
+end PutSite
+
+/-- **replace**, pair reading as the property demands it: every forest with the invariant, every
+    geometry. -/
+theorem replace_pair {f : Forest} {a b : Nat} (inv : f.Inv) (hok : (f.replace a b).2 = .ok) :
+    (f.replace a b).1 = specReplaceP a b f := by
   obtain ⟨q, vq, l, A, r, t, ra, h⟩ := replace_unpack inv hok
-  unfold specReplaceK
+  unfold specReplaceP
   rcases h with ⟨hadj, heq⟩ | ⟨⟨h1, h2⟩, heq⟩
   · rw [heq, ra.adjacent_true hadj, if_pos rfl]
     exact remove_pair inv (Forest.isLive_of_get ra.live_a)
   · rw [ra.adjacent_false h1 h2]
     simp only [Bool.false_eq_true, if_false]
     rw [ra.hgb, Forest.parent?_of_ctx ra.ctx_a]
-    simp only
-    rw [ra.nb_a]
-    show (f.replace a b).1 = ((replMid f a b q t).mergeNewAt q b).mergeLeftAt (some q)
-      (l.getLast?.map (·.handle), r.head?.map (·.handle))
+    show (f.replace a b).1 = (replMid f a b q t).mergeNew3At q b
     obtain ⟨lX, rX, ps⟩ := ra.putSite inv h1 h2
-    have hleaft : t.value.isText = true → t.kids = [] := leaf_of_text inv.valid ra.hgb
+    have hord : kidsOrdered (l ++ A :: r) = true := (validTree_node (ra.sq.valid inv.valid)).2.1
     cases hp : prevOf l A with
     | none =>
       rw [hp] at heq
       simp only at heq
       rw [heq] at hok ⊢
       rw [ra.first_eq inv hp h1 h2 hok]
-      symm
-      apply ps.final_first ra.hb
-      intro P hP
-      have hord : kidsOrdered (l ++ A :: r) = true := (validTree_node (ra.sq.valid inv.valid)).2.1
-      obtain ⟨ln, _⟩ := ordered_first hord ra.hAn hp
-      have hn := ln P (List.mem_of_getLast? hP)
-      cases hPt : P.value.isText with
-      | false => rfl
-      | true => rw [PairAfter.text_normal hPt] at hn; cases hn
+      -- the raw left neighbour, if any, is not a text node: nothing but `mergeNew` happens
+      have hnt : ∀ P, l.getLast? = some P → P.value.isText = false := by
+        intro P hP
+        obtain ⟨ln, _⟩ := ordered_first hord ra.hAn hp
+        have hn := ln P (List.mem_of_getLast? hP)
+        cases hPt : P.value.isText with
+        | false => rfl
+        | true => rw [PairAfter.text_normal hPt] at hn; cases hn
+      rw [← ps.final_first ra.hb hnt]
+      apply ps.pairK_eq_pairP ra.hb
+      intro u x P N r0 el _ _ _ hPt _
+      have := hnt P (by rw [el]; simp)
+      rw [hPt] at this
+      cases this
     | some p =>
       rw [hp] at heq
       simp only at heq
@@ -56,66 +228,66 @@ theorem replace_pairK {f : Forest} {a b : Nat} (inv : f.Inv) (hok : (f.replace a
         | panic => rw [heq] at hok; cases hok
       subst hres
       simp only at heq
-      rw [heq]
       have hok1 : ((f.editAt (some q) (dropTop a)).insertAfter p b).2 = .ok := by rw [hia]
       have hf2 := ra.after_eq inv hp h1 h2 hok1
       rw [hia] at hf2
       simp only at hf2
       subst hf2
-      obtain ⟨l2, P, el, hP, _⟩ := prevOf_eq_some hp
-      subst hP
-      simp only
-      exact ps.final_after ra.hb hleaft el
+      obtain ⟨l2, P, el, _, _⟩ := prevOf_eq_some hp
+      have hlX : lX ≠ [] := by
+        rcases ps.left with (⟨e1, _⟩ | ⟨_, _, l1, P', _, e2, _, _⟩) | ⟨_, _, _, _, l1, x', _, _, _, e2, _⟩
+        · rw [el] at e1; simp at e1
+        · rw [e2]; simp
+        · rw [e2]; simp
+      cases hn : nextOf r A with
+      | none =>
+        rw [hn] at heq
+        simp only at heq
+        rw [heq]
+        exact ps.final_last ra.hb (nextOf_none_nil hord ra.hAn hn)
+      | some n =>
+        rw [hn] at heq
+        simp only at heq
+        rw [heq]
+        obtain ⟨N, r0, er, hN, _⟩ := nextOf_eq_some hn
+        subst hN
+        exact ps.final_next ra.hb hlX er
 
-/-- Outside the corner `selfMergeReplace`, what xot does is what the property demands. -/
-theorem specReplaceK_eq_specReplaceP {f : Forest} {a b : Nat} (inv : f.Inv) (hok : (f.replace a b).2 = .ok)
-    (hcorner : selfMergeReplace f a b = false) : specReplaceK a b f = specReplaceP a b f := by
-  obtain ⟨q, vq, l, A, r, t, ra, h⟩ := replace_unpack inv hok
-  unfold specReplaceK specReplaceP
-  rcases h with ⟨hadj, _⟩ | ⟨⟨h1, h2⟩, _⟩
-  · rw [ra.adjacent_true hadj, if_pos rfl, if_pos rfl]
-  · rw [ra.adjacent_false h1 h2]
-    simp only [Bool.false_eq_true, if_false]
-    rw [ra.hgb, Forest.parent?_of_ctx ra.ctx_a]
-    simp only
-    rw [ra.nb_a]
-    show ((replMid f a b q t).mergeNewAt q b).mergeLeftAt (some q)
-      (l.getLast?.map (·.handle), r.head?.map (·.handle)) = (replMid f a b q t).mergeNew3At q b
-    obtain ⟨lX, rX, ps⟩ := ra.putSite inv h1 h2
-    cases hc : f.consolidation with
-    | false =>
-      have cX : (replMid f a b q t).consolidation = false := by rw [replMid_consolidation]; exact hc
-      rw [Forest.mergeNewAt_off cX, Forest.mergeLeftAt_off cX]
-      unfold Forest.mergeNew3At
-      rw [cX]
-      rfl
-    | true =>
-      have cX : (replMid f a b q t).consolidation = true := by rw [replMid_consolidation]; exact hc
-      have c2 : ((replMid f a b q t).mergeNewAt q b).consolidation = true := by
-        rw [PutSite.cons2]; exact hc
-      rw [mergeLeftAt_eq_adjOpt c2, Forest.mergeNewAt_on cX, Forest.editAt_editAt]
-      unfold Forest.mergeNew3At
-      rw [cX, if_pos rfl]
-      apply ps.site.congr
-      simp only [Function.comp]
-      apply ps.mergeK_eq_mergeP ra.hb
-      intro u x P N r0 el er _ hxt hPt ⟨htt, hNt⟩
-      -- the geometry of the corner
-      have s' : SiteAt f q vq ((u ++ [x]) ++ t :: (P :: A :: N :: r0)) := by
-        have e : (u ++ [x]) ++ t :: (P :: A :: N :: r0) = l ++ A :: r := by rw [el, er]; simp
-        rw [e]; exact ra.sq
-      have hctx := s'.ctx
-      rw [ra.hb] at hctx
-      have : selfMergeReplace f a b = true := by
-        unfold selfMergeReplace
-        rw [hc, hctx]
-        simp [htt, hxt, hPt, hNt, ra.ha]
-      rw [this] at hcorner
-      cases hcorner
-
-/-- **replace**, pair reading as the property demands it — outside the corner `selfMergeReplace`. -/
-theorem replace_pair_partial {f : Forest} {a b : Nat} (inv : f.Inv) (hok : (f.replace a b).2 = .ok)
-    (hcorner : selfMergeReplace f a b = false) : (f.replace a b).1 = specReplaceP a b f := by
-  rw [replace_pairK inv hok, specReplaceK_eq_specReplaceP inv hok hcorner]
+/-- The last step of `replace` (`remove_consolidate(previous_sibling(next), next)`, xot 609b613) and
+    the consolidation of the former left neighbour `p` of the replaced node with its next sibling
+    (what xot did before) give the same forest, unless `p` has been merged away and the replacing
+    text node stands between two text nodes (the corner of the former finding
+    `C05:replace-selfmerge-leaves-adjacent-text`). -/
+theorem replace_last_eq_old {f : Forest} {a b q : Nat} {vq : Value} {l : List HTree} {A : HTree}
+    {r : List HTree} {t : HTree} (ra : ReplArgs f a b q vq l A r t) (inv : f.Inv)
+    (h1 : prevOf l A ≠ some b) (h2 : nextOf r A ≠ some b) {p : Nat} (hp : prevOf l A = some p)
+    {f2 : Forest} (hia : (f.editAt (some q) (dropTop a)).insertAfter p b = (f2, .ok))
+    (hcorner : ∀ u x P N r0, l = u ++ x :: t :: [P] → r = N :: r0 → f.consolidation = true →
+      x.value.isText = true → P.value.isText = true → ¬ (t.value.isText = true ∧ N.value.isText = true)) :
+    (match nextOf r A with
+     | some n => (f2.removeConsolidate (f2.prevSibling n) (some n)).1
+     | none => f2) = (f2.removeConsolidate (some p) (f2.nextSibling p)).1 := by
+  obtain ⟨lX, rX, ps⟩ := ra.putSite inv h1 h2
+  have hord : kidsOrdered (l ++ A :: r) = true := (validTree_node (ra.sq.valid inv.valid)).2.1
+  have hleaft : t.value.isText = true → t.kids = [] := leaf_of_text inv.valid ra.hgb
+  have hok1 : ((f.editAt (some q) (dropTop a)).insertAfter p b).2 = .ok := by rw [hia]
+  have hf2 := ra.after_eq inv hp h1 h2 hok1
+  rw [hia] at hf2
+  simp only at hf2
+  subst hf2
+  obtain ⟨l2, P, el, hP, _⟩ := prevOf_eq_some hp
+  subst hP
+  have hlX : lX ≠ [] := by
+    rcases ps.left with (⟨e1, _⟩ | ⟨_, _, l1, P', _, e2, _, _⟩) | ⟨_, _, _, _, l1, x', _, _, _, e2, _⟩
+    · rw [el] at e1; simp at e1
+    · rw [e2]; simp
+    · rw [e2]; simp
+  rw [ps.final_after ra.hb hleaft el, ps.pairK_eq_pairP ra.hb hcorner]
+  cases hn : nextOf r A with
+  | none => exact ps.final_last ra.hb (nextOf_none_nil hord ra.hAn hn)
+  | some n =>
+    obtain ⟨N, r0, er, hN, _⟩ := nextOf_eq_some hn
+    subst hN
+    exact ps.final_next ra.hb hlX er
 
 end XotModel
